@@ -87,9 +87,11 @@ def line_model_sites(ctx) -> list[dict]:
         if f.parent is not None:
             continue
         for n in ast.walk(f.node):
-            if not (isinstance(n, ast.Call) and call_name(n) == "splitlines" and not n.args):
+            is_sl = isinstance(n, ast.Call) and call_name(n) == "splitlines" and not n.args
+            is_sn = isinstance(n, ast.Call) and call_name(n) == "split" and len(n.args) == 1 and isinstance(n.args[0], ast.Constant) and n.args[0].value == "\n"
+            if not (is_sl or is_sn):
                 continue
-            rec = dict(func=f.qual.replace("src.", "", 1), fq=f.qual, loc=f"{f.module.rel}:{n.lineno}", expr=norm(n), use="no positional use", indexed_by_line=False, producer=False)
+            rec = dict(func=f.qual.replace("src.", "", 1), fq=f.qual, loc=f"{f.module.rel}:{n.lineno}", expr=norm(n), use="no positional use", indexed_by_line=False, producer=False, model="splitlines" if is_sl else "newline")
             # find how the call is consumed
             parent = _parent_of(f.node, n)
             uses: list[str] = []
@@ -113,6 +115,10 @@ def line_model_sites(ctx) -> list[dict]:
                     rec["producer"] = True
                 else:
                     rec["indexed_by_line"] = True
+                rec["positional"] = "producer" if rec["producer"] else "lookup"
+                if not is_sl:
+                    # split("\n") is the parsers' own line model: positional use is what we want to see
+                    rec["producer"] = rec["indexed_by_line"] = False
             elif uses:
                 rec["use"] = "; ".join(sorted(set(uses)))
             out.append(rec)
